@@ -38,8 +38,9 @@ RULE = ("cases drawn from one PRNG (VERIF_SEED). view: a random tree (depth <= 3
         "hostile literal props — every prop in each representation of Oco / TextProp, also below Suspend boundaries "
         "that resolve before or after the first chunk, streamed in order / out of order through inject_meta_context; "
         "keyed: keyed lists (String key, structured key, leptos <For/>) rendered with branch markers; "
-        "static: thirteen fixed view! invocations whose hostile strings are literals (top-level builder path and nested, "
-        "macro-inlined inert path); "
+        "island: tachys' Island with serde_json-serialised props holding the string and IslandChildren; "
+        "static: fifteen fixed view! invocations whose hostile strings are literals (top-level builder path and nested, "
+        "macro-inlined inert path, unquoted text); "
         "static-grid: every syntactic form of a text-like child the macro accepts (bare literal, {\"lit\"}, {{\"lit\"}}, "
         "{(\"lit\")}, {'c'}, {1}, const, concat!, String / to_string expressions, closure, Option, adjacent mixtures: 23 "
         "forms) in each of 12 positions (root of the view!, nested static subtrees, next to a dynamic attribute / "
@@ -366,7 +367,7 @@ def gen_meta_doc(rng):
     return [6, mode, v, sched]
 
 
-N_STATIC = 13
+N_STATIC = 15
 N_TEMPLATES = 14
 
 
@@ -376,6 +377,31 @@ def gen_keyed(rng):
         rows[rng.randrange(len(rows))] = b(rng.choice(["-->", "--!>", "->", ">", "--"]).join(
             text(rng, 3) for _ in range(rng.randint(2, 3))))
     return [9, rng.randrange(3), rng.randrange(3), rows]
+
+
+def gen_island(rng):
+    return [11, rng.randrange(3), b(text(rng, 8)), gen_view(rng, 1, deep_tags=META_BODY_TAGS)]
+
+
+def island_problem(case, got):
+    """<leptos-island data-component="Counter" data-props=JSON><span>label</span><leptos-children>view.."""
+    import json
+    label = s_of(case[2])
+    want_kids = [("el", "span", [], [("text", norm_body(label) if label else " ")]),
+                 ("el", "leptos-children", [], exp_nodes([case[3]]))]
+    if len(got) != 2 or got[0][0] != "el" or got[0][1] != "leptos-island":
+        return "expected <leptos-island> and <p>, parsed " + H.serialize(got).strip()[:200]
+    isl = got[0]
+    at = dict(isl[2])
+    if sorted(at) != ["data-component", "data-props"] or len(isl[2]) != 2 or at["data-component"] != "Counter":
+        return "island attributes differ: parsed %r" % (isl[2],)
+    try:
+        props = json.loads(at["data-props"])
+    except ValueError:
+        return "data-props is not the JSON that was serialised: %r" % at["data-props"][:200]
+    if props != {"label": label}:
+        return "data-props differs: expected label %r, parsed %r" % (label, props)
+    return first_diff(canon(want_kids) + [("el", "p", [], [("text", "after")])], canon(isl[3]) + got[1:])
 
 
 def keyed_expect(rows):
@@ -512,6 +538,8 @@ def generate(rng, tier):
             yield dict(case=gen_meta_doc(rng), kind="metadoc", compare=False)
         elif r < 0.77:
             yield dict(case=gen_keyed(rng), kind="keyed", compare=False)
+        elif r < 0.79:
+            yield dict(case=gen_island(rng), kind="island", compare=False)
         elif r < 0.84:
             yield dict(case=gen_stream(rng), kind="stream", compare=False)
         else:
@@ -701,7 +729,24 @@ STATIC_EXPECT = [
     [("el", "div", [("class", 'g" onclick="alert(1)')],
       [("el", "p", [("class", 'g" onclick="alert(1)')], [("text", "static child")]),
        ("el", "span", [("class", 'g" onclick="alert(1) own')], [("text", "x")]), ("text", "1")])],
+    # unquoted text: compared without white space (the macro sees tokens, not the spacing between them)
+    [("el", "div", [], [("text", "a&b&amp;c")])],
+    [("el", "div", [], [("el", "p", [], [("text", "a&b&amp;cq'r'd")]), ("el", "span", [], [("text", "&lt;b&gt;&#60;x")])])],
 ]
+STATIC_UNSPACED = (13, 14)
+
+
+def unspaced(nodes):
+    out = []
+    for n in nodes:
+        if n[0] == "el":
+            out.append(("el", n[1], n[2], unspaced(n[3])))
+        elif n[0] == "text":
+            out.append(("text", "".join(n[1].split())))
+        else:
+            out.append(n)
+    return out
+
 
 
 def template_expect(k, s):
@@ -796,6 +841,8 @@ def views_of(case):
         return [case[6]]
     if case[0] in (5, 6):
         return [case[2]]
+    if case[0] == 11:
+        return [case[3]]
     return []
 
 
@@ -1015,6 +1062,8 @@ def oracle(item, impl):
         want = canon(exp_nodes([case[1]]))
     elif op == 2:
         want = canon(STATIC_EXPECT[case[1]])
+        if case[1] in STATIC_UNSPACED:
+            got = unspaced(merge_texts(got))
     elif op == 4:
         want = template_expect(case[1], s_of(case[2]))
         if want is None:
@@ -1022,6 +1071,9 @@ def oracle(item, impl):
         want = canon(want)
     elif op == 9:
         want = canon(keyed_expect(case[3]))
+    elif op == 11:
+        d = island_problem(case, got)
+        return ("parsed HTML differs from the view: " + d) if d else None
     elif op == 10:
         want = style_unterminated(canon(attr_grid_expect(case[1], case[2], s_of(case[3]))))
         got = style_unterminated(got)
@@ -1071,6 +1123,10 @@ def valid_case(item):
             for r in case[3]:
                 bytes(r).decode("utf-8")
             return len(case) == 4 and case[1] in (0, 1, 2) and case[2] in (0, 1, 2)
+        if op == 11:
+            bytes(case[2]).decode("utf-8")
+            return (len(case) == 4 and case[1] in (0, 1, 2) and valid_view(case[3]) and not has_suspend(case[3])
+                    and not meta_nodes(case[3]))
         if op == 10:
             bytes(case[3]).decode("utf-8")
             return (len(case) == 4 and all(isinstance(x, int) for x in case[1:3])
@@ -1291,6 +1347,9 @@ def describe(it):
             return "static view! #%d" % case[1]
         if case[0] == 4:
             return "view! template #%d with %r" % (case[1], s_of(case[2]))
+        if case[0] == 11:
+            return "%s of an island with the props {label: %r} and the children %s" % (
+                ["to_html", "in-order stream", "out-of-order stream"][case[1]], s_of(case[2]), show_view(case[3]))
         if case[0] == 10:
             return "view! { %s } with A = %s%s" % (ATTR_POSITIONS[case[2]], ATTR_FORMS[case[1]][0].replace("A0", _A0).replace("A1", _A1),
                                                   (", s = %r" % s_of(case[3])) if case[2] in (3, 6) else "")
@@ -1327,6 +1386,8 @@ def coverage_extra(results):
             for late, m in meta_nodes(case[2]):
                 key = "%s%s component" % ("late " if late else "", META_KINDS[m[1]])
                 pos[key] = pos.get(key, 0) + 1
+        if case[0] == 11:
+            pos["island props"] = pos.get("island props", 0) + 1
         if case[0] == 9:
             pos["keyed list key"] = pos.get("keyed list key", 0) + len(case[3])
         if case[0] == 8:
